@@ -124,7 +124,7 @@ ADDENDA = {
  'C02': ' TCP engine: requests delivered whole in two pieces with a final piece of 1..23 bytes (a missing reply is confirmed by one further frame); payloads around and beyond 0x8000 bytes in the quick tier.',
  'C10': ' Catalogue additions: dfa(repeat) around a symbol-restricted two-state sub-grammar with an incomplete intermediate element; encapsulation payloads of 32767..65000 bytes; a run whose first symbol was pushed back onto a fresh source; the declared end of an unrecognized CPF item is a hard bound.',
  'C11': ' Latin-1-range symbols (one byte in ISO-8859-1, two in UTF-8) in the multi-byte alphabet; half of the machines are built with a regex_context and the storage location is checked.',
- 'C12': ' One materialised operation list is issued again under every setting (a caller\'s list is not consumed).',
+ 'C12': ' One materialised operation list is issued again under every setting (a caller\'s list is not consumed). Text clause also covers get_attribute.attribute_operations (un-cast integers are SINT, @c/i/a reads one attribute, @c/i all) and the format/parse round trip of numeric paths that skip a level.',
  'C03': ' One request in eight comes from the boundary generator of C05 (refused requests must change nothing either); a TCP engine runs the same histories against enip.main.main() with generated command lines.',
  'C04': ' Fill values keep extreme anchors extreme at every index (ULINT >= 2**63, LINT near its minimum).',
  'C05': ' Set Attribute Single payloads with 1..size-1 stray or missing bytes.',
@@ -132,10 +132,11 @@ ADDENDA = {
  'C07': ' Client clause also spells attribute services as generic service-code operations; bundles of 255/256/257/300 small members.',
  'C08': ' TCP clause: a session aborted with RST followed by a new session from the same source port (after the aborted connection\'s handler thread ended); bursts of connections reset before accept; a write request cut at every byte offset followed by end-of-stream; a connection neither answered nor closed within 15 s is watched for another 45 s (late close = violation). Connected clause: Forward Open with 0..3 hops then connected requests under a repeating watchdog the code under test cannot swallow.',
  'C09': ' Register Session is issued under the schedule too (dedicated sweep scenario and one in four drawn cases); both engines require pairwise distinct session handles of simultaneously open sessions; one tag whose element ranges are each written by one session only; produce side line-traced (reader preempted while encoding); unparsable requests from one session while others run (two-preemption sweep, hostile sessions in engine B); a same-source-port pair from two loopback addresses.',
- 'C13': ' Stall clause: the relay delivers a reply up to byte k, stays silent past the client timeout, then delivers the rest; the connector is driven directly (with conn: harvest(issue(...))) and a later transaction must never yield the delayed reply. poll.run over several cycles.',
+ 'C13': ' Stall clause: the relay delivers a reply up to byte k, stays silent past the client timeout, then delivers the rest; the connector is driven directly (with conn: harvest(issue(...))) and a later transaction must never yield the delayed reply. poll.run over several cycles. One wide exchange (12 reads, all in flight; 21 in the thorough tier) under every contiguous run of wholly lost replies.',
  'C14': ' Connected sequence counts cross 0x8000/0xFFFF; port-less connection paths (reference session and pylogix Micro800); a second connected session dropped abruptly; raw out-of-range requests must carry 0xFF/0x2105; an exception raised inside pylogix is a failure to interoperate.',
  'C15': ' Stream clause: operation streams with per-operation route path text through connector.issue (frames captured, decoded by the reference codec); connector-level default route paths; configuration-file personalities (--config) and main(UCMM_class=...) in the CLI matrix.',
  'C16': ' Index expressions as index forms; stored None/False/0.0; pop(path, default) when only the leaf is absent.',
+ 'C18': ' Files are written in 1..3 consecutive logger sessions; a third of the plain histories use encoding=utf-8 for writing and loading, with non-ASCII comments heading files.',
  'C19': ' Two-bank inputs hugging the gap between neighbouring banks; limit 0 (= none given); a poller clause drives poller_modbus over an in-process fake transport: every requested register reads back its value.',
  'C20': ' Sessions clause: consecutive tnet_from sessions, earlier consumers stopping before all received data was consumed.',
 }
